@@ -1,4 +1,14 @@
-"""Pipeline family: C04 C05 C06 C07 C08 C09 (the runtime under the deterministic scheduler + mock driver)."""
+"""Pipeline family: C04 C06 C07 C08 C09 -- the whole runtime (acquire.c, source.c, sink.c, filter.c, channel.c, the HAL, the device
+manager) compiled unmodified from /repo's working tree against the deterministic scheduler (harness/vplatform) and a mock driver.
+
+prove      Properties_Cxx.v (theorems about every accepted trace of Pipe.PipeModel, of any length)
+correspond every trace the harness logs from the real runtime (channel operations, device calls, callbacks, thread events, API
+           calls, each with the acting thread) is translated to model events and must be ACCEPTED by the extracted model: the
+           implementation's behaviours are then among those the theorems quantify over.  A rejected event = broken tie.
+search     an independent oracle states the properties directly over the implementation's log (pipelib.oracle); it runs on every
+           case, and on a fresh larger batch when the proof or the tie is broken.
+"""
+import glob
 import os
 import sys
 
@@ -7,31 +17,105 @@ import vlib
 sys.path.insert(0, os.path.dirname(os.path.abspath(__file__)))
 import pipelib  # noqa: E402
 
-KINDS = {"C04": ["basic", "basic", "monitor"], "C05": ["basic", "monitor"], "C06": ["monitor"],
-         "C07": ["abort"], "C08": ["abort", "fault", "monitor", "basic"], "C09": ["fault"]}
+KINDS = {"C04": ["basic", "basic", "monitor", "abort"], "C06": ["monitor", "monitor", "abort"],
+         "C07": ["abort", "abort", "monitor"], "C08": ["abort", "fault", "monitor", "basic", "api", "api"], "C09": ["fault", "fault", "abort"]}
+N_QUICK = {"C04": 900, "C06": 900, "C07": 900, "C08": 900, "C09": 900}
+N_THOROUGH = 20000
+
+
+def attribute(prop, p, key, prog):
+    """Does the oracle verdict (p, key) on this program count against property `prop`?  Returns the key to report, or None."""
+    if p == prop:
+        return "%s:%s" % (p, key)
+    if p == "LIVE":
+        # the run did not finish (deadlock / step limit inside an API call): C07 (stop and abort always return), and C09 when a
+        # device fault was scripted
+        faulty = any(l.split()[0] in ("camfail", "stofail", "camstartfail", "stostartfail") for l in prog if l.split())
+        if prop == "C09" and faulty:
+            return "C09:" + key
+        if prop == "C07" and not faulty:
+            return "C07:" + key
+    return None
+
+
+def run_cases(ctx, exe, orac, cases, prop, label):
+    """Run programs on the implementation, the oracle on every log, the model acceptor on every log in scope."""
+    results = vlib.parallel(lambda c: pipelib.run_prog(exe, c[0]), cases)
+    traces = []
+    for n, ((prog, meta), (rc, lines, err)) in enumerate(zip(cases, results)):
+        ctx.case("\n".join(prog), nontrivial=any(" append " in l for l in lines))
+        ctx.count("kind:" + meta["kind"])
+        if rc not in (0, 42, 43):
+            ctx.violation("[%s] the runtime crashed or a sanitizer reported an error: %s" % (prop, (err or "")[-600:]),
+                          {"program": prog, "stderr": (err or "")[-3000:], "tail": lines[-10:]}, key=prop + ":crash")
+            continue
+        for p, key, msg in pipelib.oracle(prog, lines, meta):
+            k = attribute(prop, p, key, prog)
+            ctx.count("oracle:%s:%s" % (p, key))
+            if k is not None:
+                ctx.violation("[%s] %s" % (p, msg), {"program": prog, "log_tail": lines[-40:],
+                                                      "how": "python3 fam/pipe/tryprog.py <this file> .build/%s/h_pipe" % prop}, key=k)
+        ok, why = pipelib.in_model_scope(prog)
+        if not ok:
+            ctx.count("model-scope-skip:" + why[:50])
+            continue
+        ev, src = pipelib.to_events(prog, lines)
+        traces.append(("%s%d" % (label, n), ev, prog, lines, src))
+    if traces:
+        out = pipelib.model_run(orac, [(t[0], t[1]) for t in traces])
+        for tid, ev, prog, lines, src in traces:
+            r = out.get(tid)
+            ctx.count("model:events", len(ev))
+            if r is None:
+                ctx.broken_tie("the extracted model produced no verdict for a trace", tid)
+            elif r[0]:
+                ctx.traces_validated += 1
+            else:
+                k = r[1]
+                ctx.count("model:rejected")
+                ctx.broken_tie("the model (Pipe.PipeModel) rejects an event of a trace logged from the implementation: the "
+                               "runtime no longer behaves as the model the theorems are about",
+                               {"rejected_event": r[2], "event_index": k, "log_line": lines[src[k]] if k < len(src) else "",
+                                "previous_events": ev[max(0, k - 8):k], "model_state": r[3], "program": prog})
+    return results
 
 
 def run(ctx):
     prop = ctx.prop
+    ctx.coq_prove(["Properties_" + prop])
     exe = pipelib.build(ctx)
-    n = 20000 if ctx.tier == "thorough" else 1200
-    cases = []
-    for k in range(n):
-        kind = ctx.rng.choice(KINDS[prop])
-        cases.append(pipelib.scenario(ctx.rng, kind))
-
-    def one(c):
-        prog, meta = c
-        return pipelib.run_prog(exe, prog)
-
-    results = vlib.parallel(one, cases)
-    for (prog, meta), (rc, lines, err) in zip(cases, results):
-        ctx.case("\n".join(prog), nontrivial=any("append" in l for l in lines))
-        ctx.count("kind:" + meta["kind"])
-        if rc not in (0, 42, 43):
-            ctx.violation("runtime crashed / sanitizer report: " + (err or "")[-600:], {"program": prog, "stderr": (err or "")[-3000:], "tail": lines[-10:]}, key="crash")
-            continue
-        for p, key, msg in pipelib.oracle(prog, lines, meta):
-            ctx.count("oracle:%s:%s" % (p, key))
-            if not ctx.has_violation(p + ":" + key):
-                ctx.violation("[%s] %s" % (p, msg), {"program": prog, "log_tail": lines[-40:]}, key=p + ":" + key)
+    orac = ctx.oracle_build()
+    ctx.rule = ("a case = a client program (configure/start/map/unmap/trigger/stop/abort/shutdown over 1-2 streams, 1-3 acquisitions, ring "
+                "of 2-6 frames, frame sizes with every residue mod 8, device pacing, write delays, scripted device faults) + a scheduler seed "
+                "(random or PCT priorities); non-trivial = storage received at least one append")
+    ctx.assumptions = [
+        "OS fairness: an enabled thread is eventually scheduled (the harness scheduler picks among enabled threads; a run with no enabled "
+        "thread is reported as a deadlock)",
+        "sequential consistency at the granularity of the blocks between scheduling points (Appendix A/B of DESIGN.md); C11 data races "
+        "on the unsynchronised flags are not modelled",
+        "vplatform replaces platform.c: pthread mutex/condvar/event semantics are modelled, not exercised",
+        "the shipped devices are replaced by a mock driver here (they are covered by C14-C18)",
+        "model scope G1: frame averaging off, stream i uses device pair i, configure/start issued between acquisitions; logs outside "
+        "G1 are checked by the independent oracle only (counted under model-scope-skip)"]
+    ctx.trusted = vlib.default_trusted() + [
+        "harness/vplatform (deterministic scheduler), fam/pipe/harness/h_pipe.c + mockdrv.c, the log->event translator pipelib.to_events",
+        "RecordUpdate (coq-record-update) notation library"]
+    # ---- corpus: minimised former failures (all repaired in /repo: they must pass now)
+    corpus = []
+    for f in sorted(glob.glob(os.path.join(vlib.VERIF, "corpus", "pipe", "*.prog"))):
+        prog, expect = pipelib.load_prog(f)
+        meta = pipelib.meta_from_prog(prog)
+        meta["kind"] = "corpus"
+        corpus.append((prog, meta))
+    run_cases(ctx, exe, orac, corpus, prop, "c")
+    # ---- generated cases
+    n = N_THOROUGH if ctx.tier == "thorough" else N_QUICK[prop]
+    cases = [pipelib.scenario(ctx.rng, ctx.rng.choice(KINDS[prop])) for _ in range(n)]
+    for c in cases[:2]:
+        ctx.sample({"program": c[0]})
+    run_cases(ctx, exe, orac, cases, prop, "g")
+    # ---- search: when a proof or the tie is broken and no concrete violation of this property was seen, look harder
+    if ctx.broken and not any(v["found"] for v in ctx.violations):
+        extra = [pipelib.scenario(ctx.rng, ctx.rng.choice(["basic", "monitor", "abort", "fault", "api"])) for _ in range(3 * n if ctx.tier != "thorough" else n)]
+        ctx.count("search:extra-cases", len(extra))
+        run_cases(ctx, exe, orac, extra, prop, "x")
